@@ -171,6 +171,10 @@ def run_shard(shard, tier, seed, wd, res):
             s.op(gp + ".msm_prog", V.aff(g, c.mul(a0, gen)), V.aff(g, c.mul(d, gen)), V.n(n), V.w(rng.getrandbits(64)), V.n(w), V.n(5), V.RR(a0), V.RR(d))
     elif part == "pre256":
         pts = points64(g, seed)
+        # more points than any plausible block size of the table-driven variant (points repeat, scalars do not)
+        for nbig in ((65, 130) if q else (65, 130, 257, 600)):
+            kk = [rng.getrandbits(255) if i_ % 7 else (1 << (i_ % 255)) for i_ in range(nbig)]
+            s.op(gp + ".msm_pre256", V.lst([V.aff(g, pts[(i_ * 5 + i_ // 64) % 64]) for i_ in range(nbig)]), V.lst([V.RR(k) for k in kk]))
         for i in range(0, 16, 4):
             pts[i + 1] = pts[i]
             pts[i + 2] = c.neg(pts[i])
